@@ -220,7 +220,10 @@ CLAIMED = {
         technique='Lean 4 proof (decision logic stated outright on the model) + fault injection on the real converter',
         text=("Proved in Lean for the fault classes whose logic is in the model: a facet index beyond the body's facets "
               "is rejected (and the error propagates through any enclosing node), a FILL array of the wrong length is "
-              "rejected, IMP cards of unequal length are rejected, a material card mixing signs is rejected. Every fault "
+              "rejected, IMP cards of unequal length are rejected, a material card mixing signs is rejected, a surface card "
+              "whose mnemonic is unknown or whose parameter count is not in N_PARAMS is rejected, a 13th TR entry other "
+              "than 1 is rejected, a lattice whose FILL ranges do not match its dimensionality is rejected, a keyword "
+              "without value and a LAT value other than 1/2 stop the run. Every fault "
               "class of the property (incl. m=-1 in TR/TRCL/FILL, --lattice errors, parameter counts of every mnemonic and "
               "macrobody, unknown mnemonics) is injected at random applicable cards of valid generated decks; the run must "
               "end with a diagnostic exception class. Fault classes not carried by a theorem are fault-enumeration only."),
